@@ -9,7 +9,8 @@ The file `F : List UInt8` appears only in the hypotheses of the theorems (`Faith
 
 Every `assert!`, slice / vector index, `unwrap`, `u64` overflow / underflow and division by zero of the
 Rust code is an explicit `Out.panic` outcome (line numbers in the comments refer to the two Rust files),
-so that "no panic" is a theorem. Arithmetic is on `Nat`; `U64 = 2^64`.
+so that "no panic" is a theorem. Arithmetic is on `Nat`; `U64 = 2^64`. Line numbers are those of the
+tree at 9c4312ce.
 
 Assumed semantics (trusted, not modelled):
 * `rangemap::RangeMap<u64, usize>` (`rmap`): `insert` of a non-empty range overwrites the overlapped part of
@@ -107,33 +108,42 @@ def realChunk : Nat := 32768
 /-- `round_down_to_multiple` (:31) — the caller checks `factor ≠ 0` -/
 def roundDown (v f : Nat) : Nat := v / f * f
 
-/-- `round_up_to_multiple` (:36) — the caller checks `factor ≠ 0` and `v + f < 2^64` -/
-def roundUp (v f : Nat) : Nat := (v + f - 1) / f * f
+/-- `round_up_to_multiple` (:36-42, repaired by 9c4312ce):
+`value.checked_add(factor - 1).map_or(u64::MAX, |v| v / factor * factor)` — the caller checks `factor ≠ 0` -/
+def roundUp (v f : Nat) : Nat :=
+  if U64 ≤ v + (f - 1) then U64 - 1 else (v + (f - 1)) / f * f
 
-/-- `determine_range_sourcing` (chunked_read_buffer_manager.rs:50-77) -/
+/-- `determine_range_sourcing` (chunked_read_buffer_manager.rs:54-81) -/
 def determineRangeSourcing (chunk : Nat) (m : Mgr) (r : Range) : Out Sourcing :=
-  if ¬ r.lo < r.hi then .panic                      -- assert! :51
-  else if ¬ r.hi ≤ m.fileLen then .panic            -- assert! :52
+  if ¬ r.lo < r.hi then .panic                      -- assert! :55
+  else if ¬ r.hi ≤ m.fileLen then .panic            -- assert! :56
   else
     let planNew (startIsCached : Bool) : Out Sourcing :=
-      if chunk = 0 then .panic                      -- division by zero :32 / :37
-      else if U64 ≤ r.hi + chunk then .panic        -- `value + factor` overflows u64 :37
+      if chunk = 0 then .panic                      -- `factor - 1` underflows / division by zero :32, :40-41
       else
-        let start := if startIsCached then r.lo else roundDown r.lo chunk   -- :70-74
-        let stop := min (roundUp r.hi chunk) m.fileLen                      -- :75 clamp(0, file_len)
+        let start := if startIsCached then r.lo else roundDown r.lo chunk   -- :74-78
+        let stop := min (roundUp r.hi chunk) m.fileLen                      -- :79 clamp(0, file_len)
         .ok (.needNew ⟨start, stop⟩)
-    match rmapGet m.rmap r.lo with                  -- :54
+    match rmapGet m.rmap r.lo with                  -- :58
     | some idx =>
       match m.bufRanges[idx]? with
-      | none => .panic                              -- index out of bounds :55
+      | none => .panic                              -- index out of bounds :59
       | some br =>
-        if r.hi ≤ br.range.hi then                  -- :56
-          if r.lo < br.range.lo then .panic         -- u64 underflow :59
+        if r.hi ≤ br.range.hi then                  -- :60
+          if r.lo < br.range.lo then .panic         -- u64 underflow :63
           else .ok (.existing ⟨br.handle, r.lo - br.range.lo, r.hi - r.lo⟩)
         else planNew true
     | none => planNew false
 
-/-- `insert_buffer_range` (chunked_read_buffer_manager.rs:80-87); `none` = `RangeMap::insert` panics on
+/-- The code before 9c4312ce: identical, except that `round_up_to_multiple` computed `value + factor - 1`
+unchecked, which overflows `u64` (a panic) when `value + factor ≥ 2^64`; without overflow both versions
+compute the same value. Kept only for `C13_legacy_counterexample_round_up_overflow`. -/
+def determineRangeSourcingLegacy (chunk : Nat) (m : Mgr) (r : Range) : Out Sourcing :=
+  match determineRangeSourcing chunk m r with
+  | .ok (.needNew rr) => if U64 ≤ r.hi + chunk then .panic else .ok (.needNew rr)
+  | other => other
+
+/-- `insert_buffer_range` (chunked_read_buffer_manager.rs:84-91); `none` = `RangeMap::insert` panics on
 an empty range -/
 def insertBufferRange (m : Mgr) (r : Range) (handle : Nat) : Option Mgr :=
   if ¬ r.lo < r.hi then none
